@@ -19,7 +19,7 @@ _qc = itertools.count(1)
 
 DSL_NAMES = {"forall", "exists", "forall_range", "exists_range", "forall_keys", "exists_key", "forall_int",
              "forall_of", "exists_of", "implies", "iff", "ite", "same", "type_is", "old", "pre", "dpos", "dpos_exact", "dsize",
-             "opt_val", "str_of_int", "type_name", "str_of_type", "result_is_fresh", "uf", "fpow"}
+             "opt_val", "str_of_int", "type_name", "str_of_type", "result_is_fresh", "uf", "fpow", "exc_arg"}
 
 
 def _mentions_any(t) -> bool:
@@ -63,6 +63,7 @@ class Contract:
     ret_type: T.Ty | None = None
     inline: bool = False
     trusted: bool = False
+    raised: dict = field(default_factory=dict)  # exc class -> {clause name: SpecFn}: postconditions of raising exits
     assumes: dict = field(default_factory=dict)  # extra assumptions (lemma instances) at entry: name -> SpecFn
     frame_exempt: list = field(default_factory=list)
     properties: list = field(default_factory=list)
@@ -198,6 +199,9 @@ class SpecSet:
                     c.loop_inv[int(st.name[4:])] = fn
                 elif st.name.startswith("raises_"):
                     c.raises[st.name[7:]] = fn
+                elif st.name.startswith("raised_"):
+                    # postcondition of an exceptional exit: raised_<Exc>(old, <params>, exc)
+                    c.raised.setdefault(st.name.split("_")[1], {})[st.name] = fn
                 elif st.name.startswith("assume_"):
                     c.assumes[st.name] = fn
         for k, v in list(c.raises.items()):
@@ -716,6 +720,13 @@ class DslMixin:
             t = self.w.type_const(v.name) if isinstance(v, ClassRef) else v.term
             f = self.w.func(f"str<{self.w.sort(T.TYPE)}>", self.w.sort(T.TYPE), self.w.StrSort)
             return SV(f(t), T.STR)
+        if name == "exc_arg":
+            # exc_arg(e, i, "Type"): the i-th positional constructor argument of the raised exception e
+            e = self.evv(node.args[0])
+            i = ast.literal_eval(node.args[1])
+            rt = self.w.resolve_ann(ast.parse(ast.literal_eval(node.args[2]), mode="eval").body, self.frames[-1].module)
+            f = self.w.func(f"exc_arg{i}<{self.w.sort(rt)}>", self.w.sort(T.EXC), self.w.sort(rt))
+            return SV(f(e.term), rt)
         if name == "fpow":
             # float power as a mathematical value (no range check); natively: inf beyond the float range
             return self.power(self.evv(node.args[0]), self.evv(node.args[1]), line)
